@@ -448,6 +448,9 @@ func (g *G) typ(depth int, self string) *m.Type {
 		return o
 	case c <= 18 && len(g.d.Types) > 0:
 		// reference to a user type (possibly the one being defined: recursion)
+		if g.inlineLevel >= 1 && g.avoid("C01-usertype-in-inline-object") {
+			return &m.Type{Kind: g.prim()}
+		}
 		cands := []string{}
 		for _, ut := range g.d.Types {
 			if ut.Attr == nil && ut.Name != self {
